@@ -77,6 +77,7 @@ type dDoc struct {
 	conds  []dCond
 	full   bool // layout: every optional blank present, wider indentation
 	style  int  // 2: exactly the printer's layout (blank line before types and conditions, final line break)
+	omit   string // error-recovery variant: a required part that is missing from text and tree
 }
 
 type adder interface {
@@ -95,6 +96,7 @@ type tb struct {
 	pos   int
 	full  bool
 	style int
+	omit  string
 	names map[string]antlr.Token // name tokens by role ("type:0", "rel:0:1", "cond:0", "param:0:1")
 }
 
@@ -357,16 +359,20 @@ func (b *tb) relationDecl(parent antlr.ParserRuleContext, r dRel, key string) *p
 	b.nl(c, 4, false)
 	b.add(c, parser.OpenFGAParserDEFINE, "define")
 	b.ws(c)
-	rn := parser.NewRelationNameContext(b.p, c, 0)
-	rfrom := len(b.toks)
-	rn.AddChild(b.extID(rn, r.name))
-	b.names[key] = b.toks[rfrom]
-	b.span(rn, rfrom)
-	c.AddChild(rn)
+	if b.omit != "relation-name" {
+		rn := parser.NewRelationNameContext(b.p, c, 0)
+		rfrom := len(b.toks)
+		rn.AddChild(b.extID(rn, r.name))
+		b.names[key] = b.toks[rfrom]
+		b.span(rn, rfrom)
+		c.AddChild(rn)
+	}
 	b.optws(c)
 	b.add(c, parser.OpenFGAParserCOLON, ":")
 	b.ws(c)
-	c.AddChild(b.relationDef(c, r.expr))
+	if b.omit != "relation-def" {
+		c.AddChild(b.relationDef(c, r.expr))
+	}
 	b.span(c, from)
 	return c
 }
@@ -385,11 +391,13 @@ func (b *tb) typeDef(parent antlr.ParserRuleContext, t dType, idx int) *parser.T
 	}
 	b.add(c, parser.OpenFGAParserTYPE, "type")
 	b.ws(c)
-	nfrom := len(b.toks)
-	tn := b.extID(c, t.name)
-	b.names[keyOf("type", idx, -1)] = b.toks[nfrom]
-	c.AddChild(tn)
-	c.SetTypeName(tn)
+	if !(b.omit == "type-name" && idx == 1) {
+		nfrom := len(b.toks)
+		tn := b.extID(c, t.name)
+		b.names[keyOf("type", idx, -1)] = b.toks[nfrom]
+		c.AddChild(tn)
+		c.SetTypeName(tn)
+	}
 	if len(t.rels) > 0 {
 		b.nl(c, 2, false)
 		b.add(c, parser.OpenFGAParserRELATIONS, "relations")
@@ -415,11 +423,13 @@ func (b *tb) condition(parent antlr.ParserRuleContext, cd dCond, idx int) *parse
 	b.nlx(c, 0, false, true)
 	b.add(c, parser.OpenFGAParserCONDITION, "condition")
 	b.ws(c)
-	cn := parser.NewConditionNameContext(b.p, c, 0)
-	cfrom := len(b.toks)
-	b.names[keyOf("cond", idx, -1)] = b.add(cn, parser.OpenFGAParserIDENTIFIER, cd.name)
-	b.span(cn, cfrom)
-	c.AddChild(cn)
+	if b.omit != "condition-name" {
+		cn := parser.NewConditionNameContext(b.p, c, 0)
+		cfrom := len(b.toks)
+		b.names[keyOf("cond", idx, -1)] = b.add(cn, parser.OpenFGAParserIDENTIFIER, cd.name)
+		b.span(cn, cfrom)
+		c.AddChild(cn)
+	}
 	b.add(c, parser.OpenFGAParserLPAREN, "(")
 	for j, p := range cd.params {
 		if j > 0 {
@@ -434,6 +444,11 @@ func (b *tb) condition(parent antlr.ParserRuleContext, cd dCond, idx int) *parse
 		pc.AddChild(pn)
 		b.add(pc, parser.OpenFGAParserCOLON, ":")
 		b.ws(pc)
+		if b.omit == "param-type" {
+			b.span(pc, pfrom)
+			c.AddChild(pc)
+			continue
+		}
 		pt := parser.NewParameterTypeContext(b.p, pc, 0)
 		tfrom := len(b.toks)
 		if p.container != "" {
@@ -489,7 +504,7 @@ func (b *tb) condition(parent antlr.ParserRuleContext, cd dCond, idx int) *parse
 // docTree builds the parse tree of d and returns it with the builder (tokens,
 // text, name tokens).
 func docTree(d *dDoc) (*parser.MainContext, *tb) {
-	b := &tb{p: parser.NewOpenFGAParser(nil), pair: &antlr.TokenSourceCharStreamPair{}, line: 1, full: d.full, style: d.style, names: map[string]antlr.Token{}}
+	b := &tb{p: parser.NewOpenFGAParser(nil), pair: &antlr.TokenSourceCharStreamPair{}, line: 1, full: d.full, style: d.style, omit: d.omit, names: map[string]antlr.Token{}}
 	m := parser.NewMainContext(b.p, nil, 0)
 	if d.module == "" {
 		h := parser.NewModelHeaderContext(b.p, m, 0)
@@ -497,16 +512,20 @@ func docTree(d *dDoc) (*parser.MainContext, *tb) {
 		b.nl(h, 2, false)
 		b.add(h, parser.OpenFGAParserSCHEMA, "schema")
 		b.ws(h)
-		h.SetSchemaVersion(b.add(h, parser.OpenFGAParserSCHEMA_VERSION, d.schema))
+		if d.omit != "schema-version" {
+			h.SetSchemaVersion(b.add(h, parser.OpenFGAParserSCHEMA_VERSION, d.schema))
+		}
 		b.span(h, 0)
 		m.AddChild(h)
 	} else {
 		h := parser.NewModuleHeaderContext(b.p, m, 0)
 		b.add(h, parser.OpenFGAParserMODULE, "module")
-		b.ws(h)
-		id := b.identifier(h, d.module)
-		h.AddChild(id)
-		h.SetModuleName(id)
+		if d.omit != "module-name" {
+			b.ws(h)
+			id := b.identifier(h, d.module)
+			h.AddChild(id)
+			h.SetModuleName(id)
+		}
 		b.span(h, 0)
 		m.AddChild(h)
 	}
